@@ -822,6 +822,7 @@ pub fn generate(prop: &str, thorough: bool, rng: &mut Rng, emit: &mut Emit) {
     match prop {
         "C14" => gen_c14(thorough, scale, rng, emit),
         "C15" => gen_c15(thorough, scale, rng, emit),
+        "C05" => gen_c05(thorough, rng, emit),
         "C17" => gen_c17(thorough, scale, rng, emit),
         "C01" => gen_c01(thorough, scale, rng, emit),
         _ => super::ops2::generate(prop, thorough, rng, emit),
@@ -948,6 +949,81 @@ fn gen_c14(thorough: bool, scale: u64, rng: &mut Rng, emit: &mut Emit) {
         emit("dgram.read", vec![hex(&b)]);
     }
     super::ops2::gen_c14_more(thorough, scale, rng, emit);
+}
+
+/// C05, codec half: control-plane byte sequences (SETTINGS, unknown frames with payloads, GREASE
+/// frames small and oversize, a close capsule, HEADERS) read by the typestates of the control,
+/// session and request streams under every single cut, every pair of cuts (short sequences) and
+/// with Pending answers between the pieces: segmentation alone never changes what is read.
+fn gen_c05(thorough: bool, rng: &mut Rng, emit: &mut Emit) {
+    let fr = |ty: u64, payload: &[u8]| {
+        let mut b = enc_varint(ty);
+        b.extend(enc_varint(payload.len() as u64));
+        b.extend_from_slice(payload);
+        b
+    };
+    let settings = fr(4, &[0x08, 0x01, 0x33, 0x01, 0xab, 0x60, 0x37, 0x42, 0x01]);
+    let goaway = fr(7, &[0x40, 0x64, 0x01, 0x02, 0x03, 0x04, 0x05, 0x06]);
+    let prio = fr(0xf0700, &[0x00, 0x75, 0x3d, 0x33, 0x2c, 0x20, 0x69, 0x3d, 0x3f, 0x31]);
+    let grease = fr(0x21, &[0x04, 0x00, 0x00, 0x04, 0x00]);
+    let big_unknown = fr(0x4242, &vec![0x5a; 700]);
+    let big_grease = fr(0x21 + 0x1f * 3, &vec![0xa5; 4100]);
+    let capsule = fr(0, &[0x68, 0x43, 0x07, 0x01, 0x02, 0x03, 0x04, 0x62, 0x79, 0x65]);
+    let headers = fr(1, &[0x00, 0x00, 0xd9]);
+    let cat = |parts: &[&Vec<u8>]| parts.iter().flat_map(|p| p.iter().copied()).collect::<Vec<u8>>();
+    let seqs: Vec<(&str, Vec<u8>)> = vec![
+        ("unirem", cat(&[&settings, &prio, &grease, &goaway])),
+        ("unirem", cat(&[&settings, &goaway, &settings])),
+        ("sess", cat(&[&grease, &prio, &capsule])),
+        ("sess", cat(&[&goaway, &capsule, &grease])),
+        ("birem", cat(&[&grease, &goaway, &headers])),
+        ("unirem", cat(&[&settings, &big_unknown, &grease])),
+        ("sess", cat(&[&big_unknown, &capsule])),
+        ("unirem", cat(&[&settings, &big_grease, &goaway])),
+    ];
+    for (role, b) in &seqs {
+        let n = b.len();
+        let stride = if n > 200 { if thorough { 7 } else { 61 } } else { 1 };
+        let mut cuts: Vec<usize> = (1..n).step_by(stride).collect();
+        // chunk boundaries of the skip path
+        for k in [255usize, 256, 257, 511, 512, 513] {
+            if k < n {
+                cuts.push(k);
+            }
+        }
+        for &c in &cuts {
+            for pend in [false, true] {
+                let mut sc = vec![Step::Give(c)];
+                if pend {
+                    sc.push(Step::Pending);
+                }
+                sc.push(Step::Give(n - c));
+                sc.push(Step::Give(1));
+                emit("ts.all", vec![s(role), hex(b), fmt_script(&sc), s("open")]);
+            }
+        }
+        if n <= 60 {
+            // every pair of cuts
+            for c1 in 1..n {
+                for c2 in (c1 + 1)..n {
+                    if !thorough && (c1 + c2) % 3 != 0 {
+                        continue;
+                    }
+                    let sc = vec![Step::Give(c1), Step::Pending, Step::Give(c2 - c1), Step::Give(n - c2), Step::Give(1)];
+                    emit("ts.all", vec![s(role), hex(b), fmt_script(&sc), s("open")]);
+                }
+            }
+        }
+        // byte by byte, and random scripts
+        let sc: Vec<Step> = (0..n + 1).map(|_| Step::Give(1)).collect();
+        if n <= 800 {
+            emit("ts.all", vec![s(role), hex(b), fmt_script(&sc), s("fin")]);
+        }
+        for _ in 0..(if thorough { 40 } else { 6 }) {
+            let sc = rscript(rng, n);
+            emit("ts.all", vec![s(role), hex(b), fmt_script(&sc), s(gen_tail(rng))]);
+        }
+    }
 }
 
 fn gen_c15(thorough: bool, scale: u64, rng: &mut Rng, emit: &mut Emit) {
